@@ -219,6 +219,11 @@ func NewRootConfig(
 	}); err != nil {
 		return nil, k, fmt.Errorf("unmarshalling config: %w", err)
 	}
+	if rootConfig.ConfigFile == nil || *rootConfig.ConfigFile == "" {
+		// The config file was discovered by searching: record where it was
+		// found so that {{.ConfigDir}} refers to its directory.
+		rootConfig.ConfigFile = addr(configFile.String())
+	}
 	if err := rootConfig.Initialize(ctx); err != nil {
 		return nil, k, fmt.Errorf("initializing root config: %w", err)
 	}
